@@ -215,18 +215,20 @@ pub fn match_known<'a>(known: &'a [Known], property: &str, v: &Violation) -> Opt
 // ---------------------------------------------------------------------------------------
 // minimisation
 
-fn still_fails(scn: &Scenario, oracle: &str, budget: &mut u64, keys: Option<(u64, u64)>) -> bool {
+/// Does the candidate still show a violation of the same oracle that is NOT a listed known finding? (Without the
+/// second condition the minimiser can drift from a new violation to a known one reported under the same oracle.)
+fn still_fails(scn: &Scenario, oracle: &str, budget: &mut u64, keys: Option<(u64, u64)>, known: &[Known]) -> bool {
     if *budget == 0 {
         return false;
     }
     *budget -= 1;
     match execute_keyed(scn, false, keys) {
-        Ok(o) => o.violations.iter().any(|v| v.oracle == oracle),
+        Ok(o) => o.violations.iter().any(|v| v.oracle == oracle && match_known(known, &scn.property, v).is_none()),
         Err(_) => false,
     }
 }
 
-pub fn minimise(scn: &Scenario, oracle: &str, keys: Option<(u64, u64)>) -> (Scenario, u64) {
+pub fn minimise(scn: &Scenario, oracle: &str, keys: Option<(u64, u64)>, known: &[Known]) -> (Scenario, u64) {
     let mut budget: u64 = 2000;
     let mut best = scn.clone();
     // ddmin over the step list
@@ -240,7 +242,7 @@ pub fn minimise(scn: &Scenario, oracle: &str, keys: Option<(u64, u64)>) -> (Scen
             let mut cand = best.clone();
             let end = (i + chunk).min(len);
             cand.steps.drain(i..end);
-            if !cand.steps.is_empty() && still_fails(&cand, oracle, &mut budget, keys) {
+            if !cand.steps.is_empty() && still_fails(&cand, oracle, &mut budget, keys, known) {
                 best = cand;
                 n = (n - 1).max(2);
                 reduced = true;
@@ -271,7 +273,7 @@ pub fn minimise(scn: &Scenario, oracle: &str, keys: Option<(u64, u64)>) -> (Scen
                     }
                     let mut cand = best.clone();
                     cand.steps[si].a[ai] = cand_v;
-                    if still_fails(&cand, oracle, &mut budget, keys) {
+                    if still_fails(&cand, oracle, &mut budget, keys, known) {
                         best = cand;
                         changed = true;
                         break;
@@ -289,7 +291,7 @@ pub fn minimise(scn: &Scenario, oracle: &str, keys: Option<(u64, u64)>) -> (Scen
 pub fn write_replay(scn: &Scenario, v: &Violation, tier: &str, master: u64, idx: u64, before: usize, execs: u64, keys: Option<(u64, u64)>) -> Result<String, String> {
     let dir = format!("{}/replays", verif_dir());
     std::fs::create_dir_all(&dir).map_err(|e| e.to_string())?;
-    let path = format!("{}/{}-{}-{}.json", dir, scn.property, master, idx);
+    let path = format!("{}/{}-{}-{}-{}.json", dir, scn.property, master, idx, v.oracle.replace('.', "_"));
     let j = json!({
         "version": 1, "engine": "envsim", "property": scn.property, "oracle": v.oracle, "tier": tier,
         "master_seed": master, "run_index": idx,
@@ -670,13 +672,14 @@ fn run_check(property: &str, tier: &str) -> Result<i32, String> {
                 continue;
             }
             let scn = make_scenario(property, tier, master, *idx);
-            let (min, execs) = minimise(&scn, &v.oracle, keys);
+            let (min, execs) = minimise(&scn, &v.oracle, keys, &known);
             let mo = execute_keyed(&min, false, keys)?;
-            let mv = mo.violations.iter().find(|x| x.oracle == v.oracle).cloned().unwrap_or_else(|| v.clone());
-            if let Some(k) = match_known(&known, property, &mv) {
-                println!("KNOWN-FINDING: property={} {} [{}]", property, k.what, k.id);
-                continue;
-            }
+            // the violation as the minimised scenario shows it (never a listed known finding: the batch has stopped
+            // for this one, and `v` itself is not listed)
+            let (min, mv) = match mo.violations.iter().find(|x| x.oracle == v.oracle && match_known(&known, property, x).is_none()) {
+                Some(x) => (min, x.clone()),
+                None => (scn.clone(), v.clone()),
+            };
             let path = write_replay(&min, &mv, tier, master, *idx, scn.steps.len(), execs, keys)?;
             let mut confirmed = confirm_in_fresh_process(&path, &mv.oracle)?;
             let mut reported = (min.clone(), mv.clone(), path.clone());
@@ -700,7 +703,7 @@ fn run_check(property: &str, tier: &str) -> Result<i32, String> {
                 None => {
                     // last resort: the violation may depend on what the same worker thread executed earlier
                     // (state that the library keeps across operations). Replay the worker's stripe.
-                    let hist_path = format!("{}/replays/{}-{}-{}-history.json", verif_dir(), property, master, idx);
+                    let hist_path = format!("{}/replays/{}-{}-{}-{}-history.json", verif_dir(), property, master, idx, v.oracle.replace('.', "_"));
                     let j = json!({
                         "version": 1, "engine": "envsim", "property": property, "oracle": v.oracle, "tier": tier,
                         "master_seed": master, "run_index": idx, "violation": v.msg, "signature": v.signature,
@@ -718,7 +721,7 @@ fn run_check(property: &str, tier: &str) -> Result<i32, String> {
                         }
                         None => {
                             // last of all: state shared by all worker threads of the process
-                            let batch_path = format!("{}/replays/{}-{}-{}-batch.json", verif_dir(), property, master, idx);
+                            let batch_path = format!("{}/replays/{}-{}-{}-{}-batch.json", verif_dir(), property, master, idx, v.oracle.replace('.', "_"));
                             let j = json!({
                                 "version": 1, "engine": "envsim", "property": property, "oracle": v.oracle, "tier": tier,
                                 "master_seed": master, "run_index": idx, "violation": v.msg, "signature": v.signature,
